@@ -318,7 +318,7 @@ def main(argv=None):
         print("not reproduced")
         return 0
     quick = a.tier == "quick"
-    ev = common.Evidence(PROP, a.tier, a.seed, "exploration", "seeded wire-level sessions: base_path in {/srv/u, rel/dir, ., /, nested} x home_path in {/, /home, /d1/d2} x CWD/CDUP walks interleaved with all 12 path-taking verbs on generated paths (0..8 segments over a 20-symbol alphabet incl. '..', '.', '', backslash / drive-like / dot-prefixed / percent-encoded names, leading '/', '//', trailing '/'); non-trivial = backend paths were checked and at least one argument contained '..'; distinct = distinct run digests.  pure_subcheck.get_paths_calls counts direct calls of the static method Server.get_paths (input sampling, not simulation) incl. Windows-flavoured base paths")
+    ev = common.Evidence(PROP, a.tier, a.seed, "exploration", "seeded wire-level sessions: base_path in {/srv/u, rel/dir, ., /, nested} x home_path in {/, /home, /d1/d2} x CWD/CDUP walks interleaved with all 12 path-taking verbs on generated paths (0..8 segments over a 20-symbol alphabet incl. '..', '.', '', backslash / drive-like / dot-prefixed / percent-encoded names, leading '/', '//', trailing '/'); non-trivial = backend paths were checked and at least one argument contained '..'; distinct = distinct run digests.  pure_subcheck.get_paths_calls counts direct calls of the static method Server.get_paths (input sampling, not simulation) incl. Windows-flavoured base paths Transfers may have CWD/CDUP sent between their 1xx mark and the data connection.")
     rep = common.Reporter(PROP, ev)
     deadline = time.time() + (a.budget or (60 if quick else 1200))
     n = 4000 if quick else 500000
